@@ -11,7 +11,8 @@ from .gen_schema import Schema, default_of
 PROPERTY = 'C01'
 RULE = ('Hypothesis: schema from the shape grammar (simple / reflexive / association-class / sub-supertype, multi-attribute '
         'keys of id, integer and string type, keyword identifiers, types in any letter case) x resolvable population '
-        'built through the API (new + relate) x route (serialize_database; serialize_schema/instances/'
+        'built through the API (new + relate; or, in a third of the cases, instances first with plain values in the referential '
+        'attributes, then batch_relate() + formalize() of every association, then some links removed again) x route (serialize_database; serialize_schema/instances/'
         'unique_identifiers as three input() calls in a drawn order; persist_database; persist_schema/instances/'
         'unique_identifiers into three files loaded in a drawn order; instances-only text without CREATE TABLE) x '
         'some values set to None. Oracle: the reloaded metamodel equals a description computed by the harness from the '
@@ -65,13 +66,50 @@ def cases(draw, cr=False, phrases=None):
         for n in row:
             if n not in ident and draw(st.integers(0, 7)) == 0:
                 unset.append([cn, k, n])
+    # a third of the models are built the other way round: instances first (referential attributes holding plain values),
+    # then batch_relate() + formalize() of every association, then some of the links are removed again
+    late = draw(st.integers(0, 2)) == 0
+    drop = sorted(draw(st.sets(st.integers(0, max(len(pop['links']) - 1, 0)), max_size=3))) if late and pop['links'] else []
     return {'schema': schema_js, 'pop': pop, 'route': draw(st.sampled_from(ROUTES)),
-            'order': draw(st.permutations([0, 1, 2])), 'unset': unset}
+            'order': draw(st.permutations([0, 1, 2])), 'unset': unset, 'late': late, 'drop': drop}
+
+
+def dropped_links(case):
+    """indexes (into pop.links) of the links removed again in a 'late' model: only where the format can show the
+    difference - every referential attribute has a type with a null value and is not itself identifying"""
+    if not case.get('late'):
+        return []
+    sc = Schema(case['schema'])
+    out = []
+    for li in case.get('drop', []):
+        if li >= len(case['pop']['links']):
+            continue
+        a = sc.assocs[case['pop']['links'][li][0]]
+        ident = set()
+        for u in sc.uniques:
+            if u['cls'] == a['src']:
+                ident |= set(u['attrs'])
+        for b in sc.assocs:
+            if b['tgt'] == a['src']:
+                ident |= set(b['tgt_keys'])
+        shared = [b for b in sc.assocs if b is not a and b['src'] == a['src'] and set(b['src_keys']) & set(a['src_keys'])]
+        if shared or set(a['src_keys']) & ident:
+            continue
+        if all(sc.attr_type(a['src'], k).upper() in ('UNIQUE_ID', 'STRING') for k in a['src_keys']):
+            out.append(li)
+    return out
+
+
+def final_links(case):
+    gone = set(dropped_links(case))
+    return [l for li, l in enumerate(case['pop']['links']) if li not in gone]
 
 
 def build_m0(case):
     schema_js = case['schema']
     sc = Schema(schema_js)
+    if case.get('late'):
+        return build_m0_late(case)
     m = gen_schema.build_api(schema_js)
     insts = {}
     for cn, row in case['pop']['rows']:
@@ -89,11 +127,42 @@ def build_m0(case):
     return m, insts
 
 
+def build_m0_late(case):
+    schema_js = case['schema']
+    sc = Schema(schema_js)
+    m = gen_schema.build_api(schema_js, formalize=False)
+    sh, recs = popgen.shadow_from_links(schema_js, case['pop']['rows'], case['pop']['links'])
+    insts = {}
+    per = {}
+    for cn, row in case['pop']['rows']:
+        k = per.get(cn.upper(), 0)
+        per[cn.upper()] = k + 1
+        r = recs[cn.upper()][k]
+        full = dict((n, sh.attr(r, n)) for n, _t in sc.attrs(cn))        # referential values as the links define them
+        odd = dict((n, v) for n, v in full.items() if n in ('self', 'kind'))
+        inst = m.new(cn, **dict((n, v) for n, v in full.items() if n not in odd))
+        for n, v in odd.items():
+            setattr(inst, n, v)
+        insts.setdefault(cn.upper(), []).append(inst)
+    for ass in m.associations:
+        ass.batch_relate()
+    for ass in m.associations:
+        ass.formalize()
+    for li in dropped_links(case):
+        i, s_, t_ = case['pop']['links'][li]
+        a = sc.assocs[i]
+        ok = xtuml.unrelate(insts[a['src'].upper()][s_], insts[a['tgt'].upper()][t_], a['rel'], a['src_phrase'])
+        assert ok is True
+    for cn, k, n in case['unset']:
+        setattr(insts[cn.upper()][k], n, None)
+    return m, insts
+
+
 def expected(case, with_schema=True):
     """Description of the metamodel that must come back, computed from the generated case."""
     schema_js = case['schema']
     sc = Schema(schema_js)
-    sh, recs = popgen.shadow_from_links(schema_js, case['pop']['rows'], case['pop']['links'])
+    sh, recs = popgen.shadow_from_links(schema_js, case['pop']['rows'], final_links(case))
     unset = set((cn.upper(), k, n) for cn, k, n in case['unset'])
     d = {'classes': {}, 'assocs': [], 'instances': {}, 'links': {}}
     for c in sc.classes:
@@ -317,6 +386,10 @@ def run_case(case, res=None):
             cl.append('hard-value')
         if case['unset']:
             cl.append('has-unset')
+        if case.get('late'):
+            cl.append('built-instances-first')
+            if dropped_links(case):
+                cl.append('links-removed-again')
         res.case(case, nt, sample=case if nt and len(repr(case)) < 1900 else None, classes=sorted(set(cl)))
 
 
